@@ -663,6 +663,7 @@ func rulesC06(w *World, r *Report) {
 	w.ruleLenEncoder(r, "C06.R2 binary lengths written count the unit the reader pulls", "binary")
 	w.rulePayloadUnits(r, "C06.R2 payload read in the unit the length counts")
 	w.ruleLoopExits(r, "C06.R3 loop exit discipline", false)
+	w.ruleEveryValueStored(r, "C06.R3 every value read for a container is stored")
 	w.ruleTagReadErrors(r, "C06.R4 failed tag/header reads are errors")
 	w.ruleStreamingPersist(r, "C06.R5 streaming entry points keep per-stream state and do not read ahead")
 	include(w, r, "C04")
